@@ -29,10 +29,11 @@ const (
 	rcOpUncacheA
 	rcOpDirectDenied
 	rcOpDirectACancel // Direct(cidA) under a context the harness cancels while the call waits for the consumer
+	rcOpDirectAnon    // Direct(cidB) without a publisher ID: refused - with the closed error once the receiver is closed
 	rcNumOps
 )
 
-var rcOpNames = []string{"Close", "Direct(cidA)", "Direct(cidB)", "Next", "Uncache(cidA)", "Direct(denied)", "Direct(cidA,cancellable)"}
+var rcOpNames = []string{"Close", "Direct(cidA)", "Direct(cidB)", "Next", "Uncache(cidA)", "Direct(denied)", "Direct(cidA,cancellable)", "Direct(no publisher)"}
 
 type rcCall struct {
 	task     int
@@ -180,6 +181,8 @@ func runC16(r *simkit.Run, c Cfg) {
 					cctx, call.cancel = context.WithCancel(bg)
 					call.err = rc.Direct(cctx, cidA, peer.AddrInfo{ID: allowed.ID})
 					call.cancel()
+				case rcOpDirectAnon:
+					call.err = rc.Direct(bg, cidB, peer.AddrInfo{})
 				case rcOpDirectDenied:
 					call.err = rc.Direct(bg, cidB, peer.AddrInfo{ID: denied.ID})
 				case rcOpNext:
@@ -396,6 +399,13 @@ func runC16(r *simkit.Run, c Cfg) {
 			case rcOpClose:
 				if call.err != nil {
 					r.Violate("c16.result", "Close returned %v", call.err)
+				}
+			case rcOpDirectAnon:
+				if wasClosed && !errors.Is(call.err, announce.ErrClosed) {
+					r.Violate("c16.result", "Direct without publisher ID after Close returned %v, want the closed error", call.err)
+				}
+				if !wasClosed && (call.err == nil || errors.Is(call.err, announce.ErrClosed)) {
+					r.Violate("c16.result", "Direct without publisher ID on an open receiver returned %v, want a refusal", call.err)
 				}
 			case rcOpDirectA, rcOpDirectB, rcOpDirectDenied, rcOpDirectACancel:
 				// (also an announcement from a peer the allow filter rejects:
